@@ -27,6 +27,8 @@ def spec_weight(fi, w, A, c):
 
 
 class PhaselessF(engine_f.FCase):
+    z3_first_ms = 0  # all obligations and lemmas go to concurrent cvc5 processes (z3 needs ~100 s for the same queries)
+
     def __init__(self, args):
         self.args = args
         self.check_id = args["check_id"]
